@@ -22,7 +22,8 @@ import (
 
 type l1Impl struct{ ch *l1.Chain }
 
-func (i l1Impl) Fork() walk.Impl { return l1Impl{i.ch.Fork()} }
+func (i l1Impl) Fork() walk.Impl     { return l1Impl{i.ch.Fork()} }
+func (i l1Impl) SpecFork() walk.Impl { return l1Impl{i.ch.Fork()} }
 func (i l1Impl) Exec(e absx.M) (bool, absx.M, string) {
 	o := i.ch.Exec(e)
 	return o.OK, o.Resp, o.Err
@@ -48,7 +49,8 @@ func (i bridgeImpl) Raw() string                          { return i.p.Raw() }
 
 type l2Impl struct{ ch *l2.Chain }
 
-func (i l2Impl) Fork() walk.Impl { return l2Impl{i.ch.Fork()} }
+func (i l2Impl) Fork() walk.Impl     { return l2Impl{i.ch.Fork()} }
+func (i l2Impl) SpecFork() walk.Impl { return l2Impl{i.ch.SpecFork()} }
 func (i l2Impl) Exec(e absx.M) (bool, absx.M, string) {
 	o := i.ch.Exec(e)
 	return o.OK, o.Resp, o.Err
@@ -57,7 +59,8 @@ func (i l2Impl) Project() absx.M { return i.ch.Project() }
 
 type valImpl struct{ ch *l2.Chain }
 
-func (i valImpl) Fork() walk.Impl { return valImpl{i.ch.Fork()} }
+func (i valImpl) Fork() walk.Impl     { return valImpl{i.ch.Fork()} }
+func (i valImpl) SpecFork() walk.Impl { return valImpl{i.ch.SpecFork()} }
 func (i valImpl) Exec(e absx.M) (bool, absx.M, string) {
 	o := i.ch.Exec(e)
 	return o.OK, o.Resp, o.Err
@@ -84,7 +87,8 @@ func newValImpl(seed int64, scale string, meta absx.M) walk.Impl {
 
 type oracleImpl struct{ ch *l2.Chain }
 
-func (i oracleImpl) Fork() walk.Impl { return oracleImpl{i.ch.Fork()} }
+func (i oracleImpl) Fork() walk.Impl     { return oracleImpl{i.ch.Fork()} }
+func (i oracleImpl) SpecFork() walk.Impl { return oracleImpl{i.ch.SpecFork()} }
 func (i oracleImpl) Exec(e absx.M) (bool, absx.M, string) {
 	o := i.ch.Exec(e)
 	return o.OK, o.Resp, o.Err
